@@ -2697,12 +2697,14 @@ pub fn check_c17(sc: &Scenario, rr: &RunResult) -> Vec<Violation> {
     let Peer::Tls { starttls, tls } = &c.peer else { return v };
     let api = if c.sync_api { "sync" } else { "async" };
     let cfg = format!(
-        "{}{}/{}{}{}",
+        "{}{}/{}{}{}{}{}",
         c.scheme,
         if c.scheme == "ldap" { "+starttls" } else { "" },
         if c.trust_ca { "custom-connector" } else { "default-connector" },
         if c.no_tls_verify { "/no-verify" } else { "" },
-        if c.host != HostForm::Name { "/wrong-name" } else { "" }
+        if c.host != HostForm::Name { "/wrong-name" } else { "" },
+        if c.clone_settings { "/cloned-settings" } else { "" },
+        if c.std_stream == crate::estab::StdKind::Unix { "/std-unix" } else { "" }
     );
     let beh = format!("{:?}/{:?}", starttls, tls).replace(|ch: char| ch.is_ascii_digit(), "").replace("()", "");
     if let Some(p) = o.outcome.strip_prefix("panic:") {
@@ -2713,8 +2715,9 @@ pub fn check_c17(sc: &Scenario, rr: &RunResult) -> Vec<Violation> {
     let starttls_scheme = c.scheme == "ldap";
     let good_starttls = !starttls_scheme || matches!(starttls, StartTlsResp::Success | StartTlsResp::SuccessPlusInjected);
     let cert_ok = c.trust_ca && c.host == HostForm::Name;
-    let must_err = !good_starttls || *tls != TlsBehaviour::Good || (!cert_ok && !c.no_tls_verify);
-    let must_ok = good_starttls && *tls == TlsBehaviour::Good && (cert_ok || (c.no_tls_verify && !c.trust_ca));
+    let unix_stream = c.std_stream == crate::estab::StdKind::Unix;
+    let must_err = unix_stream || !good_starttls || *tls != TlsBehaviour::Good || (!cert_ok && !c.no_tls_verify);
+    let must_ok = !unix_stream && good_starttls && *tls == TlsBehaviour::Good && (cert_ok || (c.no_tls_verify && !c.trust_ca));
     // (a) nothing but the StartTLS request in cleartext
     if o.peer.other_cleartext_pdus > 0 {
         v.push(Violation::new("C17", "C17.a", format!("ldap-pdu-in-cleartext/{cfg}"), format!("{api} {:?}: the server saw {} LDAP PDU(s) in cleartext besides the StartTLS request: {} {:?}", o.url, o.peer.other_cleartext_pdus, o.peer.cleartext, o.peer.notes)));
@@ -3040,3 +3043,30 @@ pub fn check_c04_real(sc: &Scenario, rr: &RunResult) -> Vec<Violation> {
     v
 }
 
+
+/// C03 / C10 on the PAGED family: what a paged search hands to its caller - the entries in order (C10) and the
+/// final result with the server's other response controls, in the server's order (C03, C10) - under the paging model.
+fn paged_values(prop: &str, sc: &Scenario, rr: &RunResult, with_entries: bool) -> Vec<Violation> {
+    let mut out = vec![];
+    for x in check_c16(sc, rr) {
+        let keep = x.clause == "C16.d" || x.clause == "C16.panic" || x.clause == "C16.hang" || (with_entries && x.clause == "C16.a");
+        if !keep {
+            continue;
+        }
+        let clause = match x.clause.as_str() {
+            "C16.d" => format!("{prop}.paged-result"),
+            "C16.a" => format!("{prop}.paged-items"),
+            other => other.replace("C16", prop),
+        };
+        out.push(Violation { property: prop.into(), clause, signature: format!("paged/{}", x.signature), detail: x.detail });
+    }
+    out
+}
+
+pub fn check_c03_paged(sc: &Scenario, rr: &RunResult) -> Vec<Violation> {
+    paged_values("C03", sc, rr, false)
+}
+
+pub fn check_c10_paged(sc: &Scenario, rr: &RunResult) -> Vec<Violation> {
+    paged_values("C10", sc, rr, true)
+}
